@@ -258,6 +258,9 @@ func runOne(r *sim.Run) {
 	if ru.g.specialIDs > 0 {
 		r.Count("probe:service_id_with_special_octets", int64(ru.g.specialIDs))
 	}
+	if ru.g.bigStatistics {
+		r.Count("probe:genesis_statistics_with_large_numbers", 1)
+	}
 	if ru.g.permutedSets {
 		r.Count("probe:validator_sets_in_different_orders", 1)
 	}
